@@ -38,7 +38,11 @@ def prepIdUpS (s : String) : Option String := (prepareIdentifierUpper s.toList).
 
 /-! ## number_to_base26 -/
 
-def alphabetChar (n : Nat) : Char := Char.ofNat (65 + n % 26)
+def letters : List Char :=
+  ['A','B','C','D','E','F','G','H','I','J','K','L','M','N','O','P','Q','R','S','T','U','V','W','X','Y','Z']
+
+/-- `ALPHABET.chars().nth(num % 26)` -/
+def alphabetChar (n : Nat) : Char := letters.getD (n % 26) 'A'
 
 /-- digits of `number_to_base26`, least significant first (fuel = the number itself is enough) -/
 def base26Rev : Nat → Nat → List Char
